@@ -12,27 +12,50 @@ SIG_UNBLOCK = 1
 EINVAL = 22
 
 
+MOD = "signal_hook::low_level::signal_details::"
+_details_cache = {}
+
+
+def details_table(F):
+    """(const path, row struct path, rows) of the table of known signals: the constant of the module whose value is a list of structs each
+    holding a number, a name and an enum variant — whatever the table and its row type are called"""
+    if id(F) in _details_cache:
+        return _details_cache[id(F)]
+    found = []
+    for c, it in F.crate_items("consts"):
+        if not it["fpath"].startswith(MOD):
+            continue
+        val = it.get("val")
+        if not isinstance(val, list) or len(val) < 20:
+            continue
+        rows = []; struct = None
+        for r in val:
+            if not (isinstance(r, dict) and "fields" in r):
+                rows = None; break
+            num = name = kind = None
+            for k, v in r["fields"]:
+                if isinstance(v, bool):
+                    continue
+                if isinstance(v, int):
+                    num = v
+                elif isinstance(v, str):
+                    name = v
+                elif isinstance(v, dict) and "variant" in v:
+                    kind = v["variant"]
+            if num is None or name is None or kind is None:
+                rows = None; break
+            struct = r.get("struct")
+            rows.append((num, name, kind))
+        if rows:
+            found.append((it["fpath"], struct, rows))
+    if len(found) != 1:
+        raise AnchorLost("table of known signals (a constant list of (number, name, default kind) rows in signal_details): found %s" % [f[0] for f in found])
+    _details_cache[id(F)] = found[0]
+    return found[0]
+
+
 def details(F):
-    """rows of the DETAILS table as (number, name, default kind); the fields are told apart by the kind of value they hold"""
-    c = F.const("signal_hook::low_level::signal_details::DETAILS")
-    rows = []
-    for r in c["val"] or []:
-        num = name = kind = None
-        for k, v in r["fields"]:
-            if isinstance(v, bool):
-                continue
-            if isinstance(v, int):
-                num = v
-            elif isinstance(v, str):
-                name = v
-            elif isinstance(v, dict) and "variant" in v:
-                kind = v["variant"]
-        if num is None or name is None or kind is None:
-            raise AnchorLost("DETAILS row not decoded: %s" % r)
-        rows.append((num, name, kind))
-    if len(rows) < 20:
-        raise AnchorLost("DETAILS table decoded to %d rows" % len(rows))
-    return rows
+    return details_table(F)[2]
 
 
 REF_SIGNALS = {"Term": 15, "Stop": 20, "Ignore": 17}      # SIGTERM, SIGTSTP, SIGCHLD: one reference signal per kernel disposition class
@@ -48,7 +71,7 @@ def kind_roles(F):
         if num not in by_num:
             raise AnchorLost("DETAILS has no row for reference signal %d" % num)
         roles[role] = by_num[num]
-    d = F.adt("signal_hook::low_level::signal_details::Details")
+    d = F.adt(details_table(F)[1] or "signal_hook::low_level::signal_details::Details")
     enums = []
     for f in d["variants"][0]["fields"]:
         t = f["ty"]
@@ -410,7 +433,7 @@ def rule_d(ctx):
     ctx.rule(rid, "signal_name answers from the DETAILS table only (every name it can return is a field of a DETAILS row), and the default kind used by the "
                   "emulation comes from a row of the same table: no second source of 'known' signals", floor=2)
     from .nf import NF
-    DET = "signal_hook::low_level::signal_details::DETAILS"
+    DET = details_table(F)[0]
     for fname, what in (("signal_hook::low_level::signal_details::signal_name", "name"), ("signal_hook::low_level::signal_details::emulate_default_handler", "default kind")):
         m0 = F.one(fname)
         m = NF(F, m0)
